@@ -5,21 +5,171 @@
 mod mstsc_plain {
     include!(concat!(env!("OUT_DIR"), "/mstsc_plain.rs"));
 }
+#[allow(dead_code, unused_imports, unused_variables, non_snake_case, unused_mut, deprecated)]
+mod mstsc_shuttle {
+    include!(concat!(env!("OUT_DIR"), "/mstsc_shuttle.rs"));
+}
 mod c19;
+mod c20;
+mod fake_fd;
 mod redzone;
 
-use vcheck::runner::Tier;
+use serde_json::json;
+use vcheck::report;
+use vcheck::runner::{self, Prop, Tier};
 
 #[global_allocator]
 static GLOBAL: redzone::RedZone = redzone::RedZone;
 
+fn lookup(id: &str) -> Option<Box<dyn Prop>> {
+    match id {
+        "C19" => Some(Box::new(c19::C19::new())),
+        "C20" => Some(Box::new(c20::C20::new())),
+        _ => None,
+    }
+}
+
+/// C20: one worker case per environment script; the parent aggregates the exploration statistics
+fn c20_main(tier: Tier) -> i32 {
+    let t0 = std::time::Instant::now();
+    let _ = std::fs::remove_dir_all(c20::stats_dir());
+    let mut prop = c20::C20::new();
+    let rr = match runner::run_parent(&mut prop, tier) {
+        Ok(r) => r,
+        Err(e) => {
+            println!("MACHINERY-ERROR property=C20 {}", e);
+            return 2;
+        }
+    };
+    let bound = if tier == Tier::Quick { 1 } else { 2 };
+    let findings = report::load_findings();
+    let (mut schedules, mut points, mut states, mut transitions, mut maxp) = (0u64, 0u64, 0u64, 0u64, 0u64);
+    let mut sigs: std::collections::BTreeMap<String, (u64, serde_json::Value, String, u64)> = Default::default();
+    let mut machinery: Option<String> = None;
+    let mut per_script = vec![];
+    for idx in 0..rr.n_cases {
+        let p = c20::stats_dir().join(format!("{}.json", idx));
+        let v: serde_json::Value = match std::fs::read_to_string(&p).ok().and_then(|t| serde_json::from_str(&t).ok()) {
+            Some(v) => v,
+            None => {
+                machinery = Some(format!("no exploration statistics for script {}", idx));
+                continue;
+            }
+        };
+        schedules += v["schedules"].as_u64().unwrap_or(0);
+        points += v["points"].as_u64().unwrap_or(0);
+        states += v["states"].as_u64().unwrap_or(0);
+        transitions += v["transitions"].as_u64().unwrap_or(0);
+        maxp = maxp.max(v["max_preemptions"].as_u64().unwrap_or(0));
+        if let Some(e) = v["error"].as_str() {
+            machinery = Some(format!("script {}: {}", idx, e));
+        }
+        per_script.push(json!({"script": v["script"], "schedules": v["schedules"], "states": v["states"]}));
+        for x in v["violations"].as_array().cloned().unwrap_or_default() {
+            let sig = x["sig"].as_str().unwrap_or("?").to_string();
+            let e = sigs.entry(sig).or_insert((idx, json!({"idx": idx, "script_index": v["script_index"], "script": v["script"], "choices": x["choices"], "preemption_bound": v["bound"]}), x["detail"].as_str().unwrap_or("").to_string(), 0));
+            e.3 += x["schedules"].as_u64().unwrap_or(1);
+        }
+    }
+    // crashes / hangs attributed by the runner that never wrote statistics
+    for (sig, (idx, _c, detail)) in &rr.viols {
+        if sig.starts_with("killed-by-signal") || sig == "hang" || sig.starts_with("exit-") || sig == "huge-allocation" || sig.starts_with("panic@") {
+            let d = prop.describe(*idx);
+            sigs.entry(sig.clone()).or_insert((*idx, json!({"idx": idx, "script_index": d["script_index"], "script": d["script"], "choices": [], "preemption_bound": bound}), detail.clone(), 1));
+        }
+        if sig == "machinery" {
+            machinery = Some(detail.clone());
+        }
+    }
+    let mut unlisted = 0;
+    let mut known = 0;
+    let mut viol_json = vec![];
+    for (sig, (_idx, body, detail, n)) in &sigs {
+        let mut b = body.clone();
+        b["detail"] = json!(detail);
+        b["schedules_showing_it"] = json!(n);
+        let path = report::write_replay("C20", tier, sig, b);
+        viol_json.push(json!({"sig": sig, "replay": path, "schedules": n}));
+        if let Some(f) = report::match_finding(&findings, "C20", sig) {
+            println!("KNOWN-FINDING: property=C20 {} [{} schedule(s); sig={}; replay={}]", f.what, n, sig, path);
+            known += 1;
+        } else {
+            println!("VIOLATION property=C20 replay={}", path);
+            println!("  sig: {}", sig);
+            println!("  detail: {}", detail.chars().take(600).collect::<String>());
+            println!("  schedules showing it: {}", n);
+            unlisted += 1;
+        }
+    }
+    report::write_evidence(&report::Evidence {
+        property: "C20".into(),
+        tier,
+        level: "model_checking".into(),
+        coverage: json!({
+            "states": states,
+            "transitions": transitions,
+            "traces_validated_against_impl": schedules,
+            "samples": per_script.iter().take(4).collect::<Vec<_>>(),
+            "schedules": schedules,
+            "scheduling_points": points,
+            "scripts": rr.n_cases,
+            "preemption_bound_completed": bound,
+            "preemption_bound_note": if tier == Tier::Quick { "bound 1 on the 36 core scripts (every packing without end; every packing x every end kind after two PDUs)" } else { "bound 2 on the 36 core scripts, bound 1 on the other 90 scripts (every end kind at every position 0..3)" },
+            "max_preemptions_used": maxp,
+            "evaluations": schedules,
+            "distinct_nontrivial": rr.nontrivial,
+            "rule": "every schedule (<= bound preemptions) of {receive thread, environment script, GUI actor} for each of the environment scripts = 6 packings of 3 bitmap PDUs into TLS records / TCP segments x {no end, disconnect ultimatum, close_notify, abrupt close, undecodable PDU of RdpError kind, undecodable PDU of I/O kind} at every position 0..3. states/transitions = distinct abstract configurations (runnable set, running task, queue length, bytes consumed, closed flag, events forwarded, dead-select count, script and GUI positions) and (configuration, chosen task) edges observed at scheduling points, summed over scripts.",
+            "exhaustive": true,
+            "violations_detail": viol_json,
+            "known_findings_matched": known,
+            "explanation": "stateless exploration: every schedule is an execution of the real launch_rdp_thread/wait_for_fd bodies over a real RdpClient on real OpenSSL; the DFS scheduler re-executes the program for each schedule and checks that the same prefix of choices shows the same number of enabled tasks (divergence = machinery error)",
+        }),
+        assumptions: vec![
+            "shuttle's scheduling points: every Mutex lock/unlock, atomic access, channel operation, condvar wait/notify, spawn/join, plus every read on the modelled link and every select on the modelled descriptor".into(),
+            "Relaxed atomics are treated as sequentially consistent (the flag only carries a stop hint)".into(),
+            "TCP segmentation and select(2) are modelled: readable iff bytes are queued or the peer closed".into(),
+            "the harness ends the session itself in scripts without an end event (flag cleared + descriptor woken); that teardown is not part of the property".into(),
+        ],
+        wall_s: t0.elapsed().as_secs_f64(),
+        violations: unlisted,
+    });
+    println!("C20 {}: scripts={} schedules={} points={} states={} transitions={} max-preemptions={} violations={} known={} wall={:.1}s", tier.name(), rr.n_cases, schedules, points, states, transitions, maxp, unlisted, known, t0.elapsed().as_secs_f64());
+    if let Some(m) = machinery {
+        println!("MACHINERY-ERROR property=C20 {}", m);
+        return 2;
+    }
+    if unlisted > 0 {
+        1
+    } else {
+        0
+    }
+}
+
+fn c20_replay(v: &serde_json::Value, path: &str) -> Option<i32> {
+    if v["property"] != "C20" {
+        return None;
+    }
+    runner::install_panic_hook();
+    let idx = v["script_index"].as_u64()? as usize;
+    let choices: Vec<usize> = v["choices"].as_array()?.iter().map(|x| x.as_u64().unwrap_or(0) as usize).collect();
+    let script = c20::scripts()[idx];
+    println!("replaying script {:?} with schedule {:?}", script, choices);
+    let st = runner::with_silenced_stdout(|| c20::explore(script, u32::MAX, Some(choices)));
+    if let Some(e) = st.error {
+        println!("MACHINERY-ERROR {}", e);
+        return Some(2);
+    }
+    if st.violations.is_empty() {
+        println!("replay: no violation reproduced");
+        return Some(0);
+    }
+    for (sig, (_c, d, _n)) in &st.violations {
+        println!("violation: {} :: {}", sig, d);
+    }
+    println!("VIOLATION property=C20 replay={}", path);
+    Some(1)
+}
+
 fn main() {
-    vcheck::cli_main(
-        &|id| match id {
-            "C19" => Some(Box::new(c19::C19::new())),
-            _ => None,
-        },
-        &|_id, _tier: Tier| None,
-        &|_v, _p| None,
-    );
+    vcheck::cli_main(&lookup, &|id, tier: Tier| if id == "C20" { Some(c20_main(tier)) } else { None }, &c20_replay);
 }
